@@ -28,6 +28,8 @@ CHECKS['C09'] = (REF[0],'runtime monitoring: differential execution against the 
 CHECKS['C12'] = ('exploration','runtime monitoring: history checker over the element API (returned value, whole state and key-order invariant after every step, against a sequence / ordered-map model; bounded-exhaustive + random) and the same histories as Zn programs against the reference evaluator', 'List and dictionary operation histories are applied to the real value objects and through the evaluator; after every step the observable state is compared with a small executable model. Exhaustive for histories up to length 3/4 over the operation alphabet, random beyond.', 'Trusts: the sequence/ordered-map model in c12.go and znref; operations the documentation leaves open are not judged (listed in the evidence rule).', '§6 C12')
 CHECKS['C14'] = ('exploration','runtime monitoring: text operations over all index pairs against a code-point model; % formatting against an independent reference formatter (Python % operator)', 'Every index pair of 取样 around the valid range is applied to texts with multi-byte, astral and combining characters and compared with a code-point model; templates mixing literal text and the documented directives are formatted by the interpreter and compared with Python; malformed templates must be errors.', 'Trusts: Python 3 % formatting and Go unicode/utf8; undocumented directive combinations and non-finite numbers are exercised for crash-freedom only.', '§6 C14')
 CHECKS['C19'] = ('exploration','runtime monitoring: differential testing of 生成JSON / 解析JSON against Python json (independent RFC 8259 implementation), including every single-character corruption of small documents', 'Generated JSON text is parsed by Python and compared structurally; documents encoded by Python are parsed by the interpreter and compared including key order; corrupt documents must raise an exception that a 拦截 handler catches exactly when Python rejects them.', 'Trusts: Python 3 json module; overflowing literals, lone surrogates and non-object top levels are not judged.', '§6 C19')
+CHECKS['C04'] = ('exploration','runtime monitoring: exhaustive code-point sweep of the identifier alphabet against the table, bounded-exhaustive enumeration of numeric-looking strings against the documented form with math/big values, generate-and-recover token sequences and a greedy reference segmenter for the lexer', 'Alphabet membership is exhaustive over all code points; the numeric recogniser is enumerated over all strings up to length 5/7 of an 11-symbol alphabet (beyond its 12 states) plus prefix x suffix products; segmentation is explored with generated token sequences rendered with minimal separators.', 'Trusts: keyword spellings/type codes transcribed from the manual and public constants; math/big for decimal to double; the separator rules of the generator (DESIGN Appendix B).', '§6 C04')
+CHECKS['C13'] = ('exploration','runtime monitoring: round-trip oracle (encoder with free choice among rule-conformant spellings -> lexer -> same text) and a three-valued reference decoder over a bounded-exhaustive critical alphabet', 'Forward: random texts are written as literals in all five quote spellings with randomly chosen conformant escapes and must read back exactly (token level and through 输出). Reverse: all strings up to length 3/4 over 28 critical symbols are decoded by a reference decoder that declares a case unspecified when defensible readings of the rules differ.', 'Trusts: the reference decoder in c13.go (four readings of the catch-all backtick rule must agree for a case to be judged).', '§6 C13')
 NOT_YET = {}
 
 def main():
